@@ -46,7 +46,10 @@ Scripts == <<
   << [op |-> "CreateTable", k |-> 2], [op |-> "AddPrimaryKey", t |-> "t", cols |-> <<"c">>], Idx("t", "i1", <<"b">>, FALSE),
      Ins("t", <<I(7), Cs(<<97>>), I(9)>>), [op |-> "DropColumn", t |-> "t", c |-> "a"] >>,
   \* 11 SHOW FULL COLUMNS reports the default collation for every column
-  << [op |-> "CreateTable", k |-> 1], [op |-> "ChangeCollation", t |-> "t", col |-> C("b", TVar(4, "ci"), FALSE, NoDef), pos |-> "last", after |-> ""] >>
+  << [op |-> "CreateTable", k |-> 1], [op |-> "ChangeCollation", t |-> "t", col |-> C("b", TVar(4, "ci"), FALSE, NoDef), pos |-> "last", after |-> ""] >>,
+  \* 12 in-place MODIFY (collation _bin -> _ai_ci of the primary-key column) does not re-check the key: 'A' and 'a' stay
+  << [op |-> "CreateTable", k |-> 4], Ins("t", <<Cs(<<65>>), I(9)>>), Ins("t", <<Cs(<<97>>), I(7)>>),
+     [op |-> "ChangeCollation", t |-> "t", col |-> C("a", TVar(4, "ci"), TRUE, NoDef), pos |-> "last", after |-> ""] >>
 >>
 
 InitScript == sid \in 1..Len(Scripts) /\ Init
